@@ -475,7 +475,6 @@ pub const CORPUS: &[&str] = &[
     "<a xmlns:xmlns='zzz'/>",
     "<a xmlns:p=''><p:b/></a>",
     "<a xmlns:xml='http://www.w3.org/XML/1998/namespace' xml:id='i'/>",
-<<<<<<< HEAD
     // C17 slices: the witness of Props/C17 (sliceWitness), runs that start / end inside a CDATA
     // section or contain an empty one, names written with a leading colon
     "<p:a xmlns:p=\"u\" b=\"x&#10;y\">t&lt;<![CDATA[c]]><!--k--><?pi d?></p:a>",
@@ -483,7 +482,6 @@ pub const CORPUS: &[&str] = &[
     "<a>x<![CDATA[]]></a>",
     "<:a/>",
     "<a :b='1'/>",
-=======
     // C03_accepted_*: the witnesses of Props/C03.lean and what the tokenizer lets through
     "<a xmlns:p='' p:xmlns='v'/>",
     "<a xmlns:xml='' xmlns:p='http://www.w3.org/XML/1998/namespace' p:id='i'/>",
@@ -494,7 +492,6 @@ pub const CORPUS: &[&str] = &[
     "<:a :b='1'/>",
     "<r xmlns=\"urn:a\" xmlns:p=\"urn:b\" k=\"&lt;&#x41;&amp;\"><p:c xml:id=\" i \"/><![CDATA[x]]>y&#xD;<!--c--><?t d?><e xmlns=\"\"/></r>",
     "<a xmlns:p='http://www.w3.org/2000/xmlns/'><p:b/></a>",
->>>>>>> wt-accepted
 ];
 
 const SNIPPETS: &[&str] = &[
